@@ -27,7 +27,20 @@ type Recorder struct {
 	delays map[string]float64       // hook point -> probability of a short delay (schedule perturbation)
 	gates  map[string]chan struct{} // hook point (optionally "point@role") -> parked until the channel is closed
 	parked map[string]chan struct{} // signalled when a goroutine parks at the gate
+	watch  map[string]chan struct{} // hook point (optionally "point@role") -> signalled at every occurrence
 	maxD   time.Duration
+}
+
+// Watch returns a channel that receives a token every time the hook point is passed.
+func (r *Recorder) Watch(key string) <-chan struct{} {
+	r.mu.Lock()
+	defer r.mu.Unlock()
+	if r.watch == nil {
+		r.watch = map[string]chan struct{}{}
+	}
+	c := make(chan struct{}, 1024)
+	r.watch[key] = c
+	return c
 }
 
 func NewRecorder(seed int64, hooks bool) *Recorder {
@@ -132,6 +145,14 @@ func (r *Recorder) Sink(conn int, role string, ev string, kv []interface{}) {
 	p := r.delays[ev]
 	if p == 0 {
 		p = r.delays["*"]
+	}
+	for _, k := range []string{ev, ev + "@" + role} {
+		if wc := r.watch[k]; wc != nil {
+			select {
+			case wc <- struct{}{}:
+			default:
+			}
+		}
 	}
 	r.mu.Unlock()
 	if g != nil {
